@@ -70,15 +70,21 @@ def accessor_results(a, b):
         return []
 
 
-def check_pure(spec, ha, hb, opname, muts):
+def check_pure(spec, ha, hb, opname, muts, reloaded=False):
     """Apply one pure operation to fresh operands a, b; then every mutator to each returned container and to the
-    operands; observable states of the untouched objects must not change."""
-    args = {"spec": spec, "ha": core.show_evs(ha), "hb": core.show_evs(hb), "op": opname, "muts": core.show_evs(muts)}
+    operands; observable states of the untouched objects must not change. reloaded: the operands are JSON reloads
+    (immutable form: they cannot be filled, but they can still be merged into in place)."""
+    import histogrammar as hg
+
+    args = {"spec": spec, "ha": core.show_evs(ha), "hb": core.show_evs(hb), "op": opname, "muts": core.show_evs(muts),
+            "reloaded": reloaded}
     out = []
     op = dict(pure_ops(spec))[opname]
 
     def fresh():
         a, b = core.mk(spec, ha), core.mk(spec, hb)
+        if reloaded:
+            a, b = hg.Factory.fromJson(a.toJson()), hg.Factory.fromJson(b.toJson())
         return a, b, a.toJson(), b.toJson()
 
     a, b, da, db = fresh()
@@ -99,6 +105,8 @@ def check_pure(spec, ha, hb, opname, muts):
     mut_kinds = [("fill", m) for m in muts] + [("fillnp", None), ("iadd", None)]
     if opname == "accessors":
         mut_kinds = [("fill", m) for m in muts]
+    if reloaded:
+        mut_kinds = [("iadd", None)]
     for ri in range(nres):
         for mk, m in mut_kinds:
             a, b, da, db = fresh()
@@ -107,6 +115,10 @@ def check_pure(spec, ha, hb, opname, muts):
                 dr = r.toJson()
                 if not mutate(spec, r, mk, m, muts):
                     continue
+            except Leak as e:
+                out.append(core.v_diff(PROP, "alias", "right operand of += changed when the merge target (result of %s) "
+                                       "was mutated afterwards" % opname, e.d, e.doc, dict(args, mut=mk)))
+                return out
             except Exception as e:
                 out.append(core.v_exc(PROP, "pure", "mutating the result of %s raised" % opname, e, dict(args, mut=mk)))
                 break
@@ -124,6 +136,10 @@ def check_pure(spec, ha, hb, opname, muts):
                 mutate(spec, a, mk, m, muts)
                 if ha != hb or True:
                     mutate(spec, b, mk, m, muts)
+            except Leak as e:
+                out.append(core.v_diff(PROP, "alias", "right operand of += changed when the merge target (an operand of %s) "
+                                       "was mutated afterwards" % opname, e.d, e.doc, dict(args, mut=mk)))
+                return out
             except Exception as e:
                 out.append(core.v_exc(PROP, "pure", "mutating an operand after %s raised" % opname, e, dict(args, mut=mk)))
                 break
@@ -151,10 +167,30 @@ def mutate(spec, obj, kind, m, muts):
         obj.fill.numpy(to_batch(recs[:2]))
         return True
     if kind == "iadd":
+        # merging INTO the object; afterwards the object is filled further and the merged-in operand must not change
         other = core.mk(spec, list(muts[:2]))
         obj += other
+        d0 = other.toJson()
+        try:
+            for m in muts[:3]:
+                obj.fill(A.fresh(m[0]), m[1])
+        except TypeError:
+            pass  # an immutable (reloaded) object cannot be filled; the in-place merge above is what matters then
+        extra = core.mk(spec, list(muts[1:3]))
+        obj += extra
+        d = C.diff(other.toJson(), d0, tol_keys=())
+        if d:
+            raise Leak(d, other.toJson())
         return True
     raise ValueError(kind)
+
+
+class Leak(Exception):
+    """The right operand of an in-place merge changed when the merge target was mutated afterwards."""
+
+    def __init__(self, d, doc):
+        super().__init__("leak")
+        self.d, self.doc = d, doc
 
 
 # ------------------------------------------------------------------ independent construction
@@ -379,6 +415,10 @@ def _tree(task):
                     m.append((r, w))
             acc.add(check_pure(spec, ha, hb, opname, m))
             acc.n("pure_op_cases")
+            if opname in ("a+b", "zero", "copy", "a*0.5", "a*0"):
+                acc.add(check_pure(spec, ha, hb, opname, m, reloaded=True))
+                acc.n("pure_op_cases")
+                acc.n("pure_op_cases_on_reloaded_operands")
             acc.n("transitions", 2 + 2 * (len(m) + 2))
             acc.distinct("cases", FW.hkey((S.key(spec), repr(core.show_evs(ha)), repr(core.show_evs(hb)), opname)))
     if len(hists) > 1:
@@ -459,4 +499,4 @@ def replay(driver, args):
     if "df_method" in args:
         return check_dfmethod(args["df_method"])
     return check_pure(args["spec"], core.unshow_evs(args["ha"]), core.unshow_evs(args["hb"]), args["op"],
-                      core.unshow_evs(args["muts"]))
+                      core.unshow_evs(args["muts"]), args.get("reloaded", False))
